@@ -25,7 +25,7 @@ const limit = 1 << 20 // what the PROPERTY says (1 MiB), not what the code says
 func init() {
 	h.Register(&h.Prop{
 		ID:     "C15",
-		Rule:   "cases: rdz (Reads returning 0 bytes and no error in between), rde (the rd cases over a transport whose last Read returns bytes together with io.EOF), inter (two connections read concurrently under a scripted interleaving of their Read calls), rd (explicit short stream × every 2-split / 1-byte / random chunking, EOF at every offset), rdseq (≤50 frames), syn (lengths 1..5, 2^k-1,2^k,2^k+1 ≤ 2^20+1, headers 0 and > limit), wr; non-trivial = stream is delivered in ≥2 chunks or is malformed (truncated / zero / oversize header); distinct = distinct case line",
+		Rule:   "cases: wrx (every Write scripted: short writes with a nil error, Writes returning (0, nil), a failing Write at every position), pipe (the real sendPipe on a scripted connection, its wire re-chunked and read by the real readPipe; transport failures final or transient), wr2 (two goroutines call writeTo on one connection under a scripted order of their Writes), rdzm (rdz against the model's step machine), rdz (Reads returning 0 bytes and no error in between), rde (the rd cases over a transport whose last Read returns bytes together with io.EOF), inter (two connections read concurrently under a scripted interleaving of their Read calls), rd (explicit short stream × every 2-split / 1-byte / random chunking, EOF at every offset), rdseq (≤50 frames), syn (lengths 1..5, 2^k-1,2^k,2^k+1 ≤ 2^20+1, headers 0 and > limit), wr; non-trivial = stream is delivered in ≥2 chunks or is malformed (truncated / zero / oversize header); distinct = distinct case line",
 		Gen:    gen,
 		Exec:   exec,
 		Shrink: shrinkLine,
@@ -350,7 +350,8 @@ func exec(line string) (res h.Result) {
 			res.Class = "rd-ok"
 			res.Nontrivial = nch >= 2
 		}
-	case "rdz":
+	case "rdz", "rdzm":
+		// (rdzm: the same run; the model side goes through its step machine, one conn.Read per step)
 		// size 0 in the script = a Read that returns (0, nil): the loops just call Read again
 		stream, sizes := h.UnHex(w[1]), csv(w[2])
 		c := &sconn{chunks: chunkZ(stream, sizes), zeroOK: true}
@@ -360,10 +361,10 @@ func exec(line string) (res h.Result) {
 		}
 		if err != nil {
 			res.Impl = fmt.Sprintf("err %s req=%d", errKind(err), c.maxReq)
-			res.Class = "rdz-err-" + errKind(err)
+			res.Class = w[0] + "-err-" + errKind(err)
 		} else {
 			res.Impl = fmt.Sprintf("ok %s rest=%s req=%d", h.Hex(got), h.Hex(c.rest()), c.maxReq)
-			res.Class = "rdz-ok"
+			res.Class = w[0] + "-ok"
 		}
 		res.Nontrivial = true
 	case "rde":
@@ -490,6 +491,9 @@ func exec(line string) (res h.Result) {
 		}
 		res.Nontrivial = len(ws) > 0 || n > limit
 	default:
+		if r, ok := execX(line); ok {
+			return r
+		}
 		panic("bad case line")
 	}
 	return
@@ -661,6 +665,8 @@ func gen(tier string, rng *h.Rng, emit func(string)) {
 		}
 		emit(fmt.Sprintf("rd %s %s", h.Hex(s), csvOf([]int{1 + rng.Intn(6), 1 + rng.Intn(6)})))
 	}
+	// 7. round 5: scripted Writes, the sendPipe / readPipe pair, two writers on one connection (pipe.go)
+	genX(tier, rng, emit)
 }
 
 // shrinkLine proposes simpler variants of an `rd` case: shorter stream, simpler chunking.
